@@ -54,6 +54,12 @@ class sumtensor:
             f"but received: {type(tensors)}"
         )
         assert all(
+            isinstance(
+                tensor_i, (ttb.tensor, ttb.sptensor, ttb.ktensor, ttb.ttensor)
+            )
+            for tensor_i in tensors
+        ), "Sumtensor only supports collections of tensor, sptensor, ktensor, and ttensor"
+        assert all(
             tensors[0].shape == tensor_i.shape for tensor_i in tensors[1:]
         ), "All tensors must be the same shape"
         if copy:
